@@ -808,6 +808,10 @@ func (c *Ctx) callRange(call *ssa.Call) (int64, int64, bool) {
 	c.crDepth++
 	defer func() { c.crDepth-- }()
 	cs := c.CalleesAt(call)
+	if len(cs.Mod) == 0 && len(cs.External) == 1 && cs.External[0] == "iface:hash.Hash.Size" {
+		lo, hi := c.moduleHashSizeRange()
+		return lo, hi, true
+	}
 	if len(cs.External) > 0 || len(cs.Mod) == 0 {
 		return 0, 0, false
 	}
